@@ -62,7 +62,7 @@ theorem client_addr_persists (s : Client.State) (k a : Nat) (op : Client.Op)
   | sub k' p i h =>
     have hne : k ≠ k' := fun e => h2 p i h (by rw [e])
     refine ⟨sub, ?_, ha⟩
-    simp only [Client.step, AMap.lookup_insert, hne, if_false]
+    simp only [Client.step, Client.save, AMap.lookup_insert, hne, if_false]
     exact hs
   | release k' =>
     have hne : k ≠ k' := fun e => h1 (by rw [e])
@@ -72,7 +72,21 @@ theorem client_addr_persists (s : Client.State) (k a : Nat) (op : Client.Op)
     · exact hs
     · split
       · exact hs
-      · simp only [AMap.lookup_insert, hne, if_false]; exact hs
+      · simp only [Client.save, AMap.lookup_insert, hne, if_false]; exact hs
+  | allocF k' =>
+    refine ⟨sub, ?_, ha⟩
+    simp only [Client.step, Client.allocF]
+    split
+    · exact hs
+    · split
+      · exact hs
+      · split <;> exact hs
+  | releaseF k' =>
+    refine ⟨sub, ?_, ha⟩
+    simp only [Client.step, Client.releaseF]
+    split
+    · exact hs
+    · split <;> exact hs
   | alloc k' =>
     by_cases e : k = k'
     · subst e
@@ -90,7 +104,7 @@ theorem client_addr_persists (s : Client.State) (k a : Nat) (op : Client.Op)
             · exact hs
             · split
               · exact hs
-              · simp only [AMap.lookup_insert, e, if_false]; exact hs
+              · simp only [Client.save, AMap.lookup_insert, e, if_false]; exact hs
 
 /-- Idempotence over histories: a subscriber that holds an address and asks again — after ANY sequence
     of pool-record edits, ISP-record edits and operations of other subscribers, as long as it was not
@@ -141,7 +155,7 @@ theorem client_release_clears (s : Client.State) (k : Nat) (sub : Client.Sub)
   simp only [hs]
   cases ha : sub.addr with
   | none => simp [hs, ha]
-  | some a => simp
+  | some a => simp [Client.save]
 
 /-- D1, the collision theorem (pigeonhole): for EVERY hash function and every family of subscriber
     ids, among any n > numHosts subscribers two are given the same address. -/
